@@ -89,7 +89,7 @@ fn segment(d: &mut Drv, r: &mut R, dir: &std::path::Path, seg: u64) {
     std::fs::create_dir_all(dir).unwrap();
     let file = dir.join("db.axm");
     let page = *[4096usize, 8192, 16384, 32768].get(r.random_range(0..4)).unwrap();
-    let is_big = |name: &str| name == "p3";   // p3 holds the rows with overflow chains: inserted, read, dropped - never rewritten
+    let is_big = |name: &str| name == "p3" || name == "p2";   // p2 and p3 hold rows with overflow chains
     let mk = |r: &mut R| eng::cfg(page, *[16usize, 64, 2000].get(r.random_range(0..3)).unwrap(), r.random_range(1..4), r.random_range(3..6), r.random_range(1..4));
     d.q.lock().unwrap().clear();
     d.t.ev(json!({"ev": "reset", "page": page, "seg": seg}));
@@ -112,7 +112,7 @@ fn segment(d: &mut Drv, r: &mut R, dir: &std::path::Path, seg: u64) {
             if o.is_ok() { live.push((name.to_string(), u, 1)); }
         } else if k < 50 {
             let i = r.random_range(0..live.len());
-            if is_big(&live[i].0) && live[i].2 > 6 { continue; }
+            if is_big(&live[i].0) && live[i].2 > 14 { continue; }
             let rows = if is_big(&live[i].0) { 1 } else if r.random_bool(0.3) { r.random_range(10..40) } else { r.random_range(1..9) };
             let mut vals = vec![];
             for _ in 0..rows { let id = live[i].2; live[i].2 += 1; vals.push(format!("({id}, {}, '{}')", r.random_range(-5..50), text(r, page, is_big(&live[i].0)))); }
@@ -124,12 +124,12 @@ fn segment(d: &mut Drv, r: &mut R, dir: &std::path::Path, seg: u64) {
             }
         } else if k < 62 {
             let i = r.random_range(0..live.len());
-            if d.aliased.contains(&live[i].0) || is_big(&live[i].0) { d.skipped += 1; continue; }
+            if d.aliased.contains(&live[i].0) { d.skipped += 1; continue; }
             if !live[i].1 { let m = r.random_range(2..5); d.sql(0, &format!("UPDATE {} SET t = '{}' WHERE id % {m} = {}", live[i].0, text(r, page, is_big(&live[i].0)), r.random_range(0..m))); }
         } else if k < 74 {
             let i = r.random_range(0..live.len());
             let lo = r.random_range(0..live[i].2.max(1));
-            if d.aliased.contains(&live[i].0) || is_big(&live[i].0) { d.skipped += 1; continue; }
+            if d.aliased.contains(&live[i].0) { d.skipped += 1; continue; }
             d.sql(0, &format!("DELETE FROM {} WHERE id >= {lo} AND id < {}", live[i].0, lo + r.random_range(1..8)));
         } else if k < 82 && !d.aliased.is_empty() { d.skipped += 1; continue; }
         else if k < 82 { d.p("vacuum"); let o = d.eng.vacuum(); d.note("vacuum", &o); }
